@@ -37,7 +37,7 @@ BOUND = {k: v + "; plus: " + "list names with a dot next to their stem; a user-w
 
 LISTS = ["c", "c1", "d"]
 VARIANTS = ["plain", "filter", "rand", "randseed", "randseedref", "multi", "rank", "or_other", "shared", "search",
-            "multi_or_other", "unused", "fromrepeat", "fromrepeat-filter", "randfalse", "randfalseseed", "randfilter", "multirandfalse"]
+            "multi_or_other", "unused", "fromrepeat", "fromrepeat-filter", "randfalse", "randfalseseed", "randfilter", "multirandfalse", "randseedexpr", "randseedexpr2"]
 
 
 def gen_lists(tier):
@@ -182,6 +182,10 @@ def build_lists(case):
         sel["parameters"] = "randomize=true seed=42"
     elif v == "randseedref":
         sel["parameters"] = "randomize=true, seed=${n}"
+    elif v == "randseedexpr":
+        sel["parameters"] = "randomize=true seed=${n}+${n}"
+    elif v == "randseedexpr2":
+        sel["parameters"] = "seed=${n}*7 randomize=true"
     elif v == "randfalse":
         sel["parameters"] = "randomize=false"
     elif v == "randfalseseed":
@@ -302,6 +306,7 @@ def check_lists(case, wb, out, viol):
         "randseedref": f"randomize(instance('c')/root/item, {nref})", "multi": "instance('c')/root/item",
         "rank": "instance('c')/root/item", "or_other": "instance('c')/root/item", "shared": "instance('c')/root/item",
         "multi_or_other": "instance('c')/root/item",
+        "randseedexpr": f"randomize(instance('c')/root/item, {nref} + {nref})", "randseedexpr2": f"randomize(instance('c')/root/item, {nref} *7)",
         "randfalse": "instance('c')/root/item", "randfalseseed": "instance('c')/root/item",
         "multirandfalse": f"instance('c')/root/item[x = {cur}{nref}]", "randfilter": f"randomize(instance('c')/root/item[x = {cur}{nref}], 7)",
     }
